@@ -295,3 +295,91 @@ theorem decode_encode (f : Fmt) (h : f.WF) (v : Val) (st : Bool) : decode f (enc
   decode_toBits f h _ (round_canon f v st)
 
 end Urandom.IEEE
+
+namespace Urandom.IEEE
+
+/-! ### rounding is exact on representable values -/
+
+theorem log2_shiftLeft (q k : ℕ) (hq : q ≠ 0) : (q <<< k).log2 = q.log2 + k := by
+  have h0 : q <<< k ≠ 0 := by rw [Nat.shiftLeft_eq]; positivity
+  rw [Nat.log2_eq_iff h0, Nat.shiftLeft_eq]
+  have h1 : 2 ^ q.log2 ≤ q := Nat.log2_self_le hq
+  have h2 : q < 2 ^ (q.log2 + 1) := Nat.lt_log2_self
+  constructor
+  · rw [pow_add]; exact Nat.mul_le_mul_right _ h1
+  · have : q.log2 + k + 1 = (q.log2 + 1) + k := by omega
+    rw [this, pow_add]; exact Nat.mul_lt_mul_of_pos_right h2 (by positivity)
+
+/-- every decoded value is canonical -/
+theorem decode_canon (f : Fmt) (bits : ℕ) : Canon f (decode f bits) := by
+  rw [decode_eq]
+  have hA : 0 < 2 ^ f.mb := Nat.pos_of_ne_zero (by positivity)
+  have hB : 0 < 2 ^ f.eb := Nat.pos_of_ne_zero (by positivity)
+  split
+  · split <;> trivial
+  · rename_i h1
+    split
+    · exact Or.inl ⟨Nat.mod_lt _ hA, rfl⟩
+    · rename_i h2
+      right
+      have hlt : bits >>> f.mb % 2 ^ f.eb < 2 ^ f.eb := Nat.mod_lt _ hB
+      have hm : bits % 2 ^ f.mb < 2 ^ f.mb := Nat.mod_lt _ hA
+      generalize bits >>> f.mb % 2 ^ f.eb = E at *
+      refine ⟨by omega, by rw [pow_succ]; omega, ?_, ?_⟩
+      · unfold Fmt.emin; omega
+      · unfold Fmt.emaxField at *; omega
+
+/-- **`round` returns a representable value unchanged**, however it is presented (`q·2^k` at exponent
+`e - k`) -/
+theorem round_exact (f : Fmt) (s : Bool) (q : ℕ) (e : ℤ) (k : ℕ) (st : Bool) (hc : Canon f (.fin s q e)) :
+    round f (.fin s (q <<< k) (e - k)) st = .fin s q e := by
+  by_cases hq : q = 0
+  · subst hq
+    rcases hc with ⟨_, he⟩ | ⟨h, _⟩
+    · simp [round, he]
+    · exact absurd h (by have : 0 < 2 ^ f.mb := Nat.pos_of_ne_zero (by positivity); omega)
+  · have h0 : q <<< k ≠ 0 := by rw [Nat.shiftLeft_eq]; positivity
+    unfold round
+    simp only [h0, if_false]
+    have hlo : 2 ^ q.log2 ≤ q := Nat.log2_self_le hq
+    have hhi : q < 2 ^ (q.log2 + 1) := Nat.lt_log2_self
+    -- the exponent `roundCore` settles on is `e`
+    have he' : max (e - k + (((q <<< k).log2 + 1 : ℕ) : ℤ) - ((f.mb : ℤ) + 1)) f.emin = e := by
+      rw [log2_shiftLeft q k hq]
+      rcases hc with ⟨hsub, hee⟩ | ⟨hn1, hn2, hn3, _⟩
+      · have : q.log2 < f.mb := (Nat.log2_lt hq).2 hsub
+        push_cast; omega
+      · have h1 : f.mb ≤ q.log2 := (Nat.le_log2 hq).2 hn1
+        have h2 : q.log2 < f.mb + 1 := (Nat.log2_lt hq).2 hn2
+        push_cast; omega
+    have hcore : roundCore f (q <<< k) (e - k) st = (q, e) := by
+      unfold roundCore
+      simp only []
+      rw [he']
+      have hsh : e - (e - (k : ℤ)) = k := by omega
+      rw [hsh]
+      have hqlt : q < 2 ^ (f.mb + 1) := by
+        rcases hc with ⟨hsub, _⟩ | ⟨_, hn2, _, _⟩
+        · exact lt_trans hsub (Nat.pow_lt_pow_right (by decide) (by omega))
+        · exact hn2
+      by_cases hk : k = 0
+      · subst hk
+        simp [hqlt.not_ge]
+      · have hkpos : ¬ ((k : ℤ) ≤ 0) := by omega
+        have hq0 : (q <<< k) >>> k = q := by
+          rw [Nat.shiftLeft_eq, Nat.shiftRight_eq_div_pow]
+          exact Nat.mul_div_cancel _ (Nat.pos_of_ne_zero (by positivity))
+        have hrem : (q <<< k) % 2 ^ k = 0 := by rw [Nat.shiftLeft_eq]; exact Nat.mul_mod_left _ _
+        have hhalf : 2 ^ (k - 1) ≠ 0 := by positivity
+        simp only [hkpos, if_false, Int.toNat_natCast, hq0, hrem]
+        have hne : ¬ ((0 : ℕ) = 2 ^ (k - 1)) := fun h => hhalf h.symm
+        simp [hne, hqlt.not_ge]
+    rw [hcore]
+    unfold finish
+    rcases hc with ⟨hsub, _⟩ | ⟨_, _, _, hn4⟩
+    · have : ¬ (q ≥ 2 ^ f.mb ∧ e + f.mb + f.bias ≥ (f.emaxField : ℤ)) := by omega
+      simp [this]
+    · have : ¬ (q ≥ 2 ^ f.mb ∧ e + f.mb + f.bias ≥ (f.emaxField : ℤ)) := by omega
+      simp [this]
+
+end Urandom.IEEE
